@@ -35,3 +35,5 @@ pub mod numint;
 pub use numint::*;
 pub mod kaliski;
 pub use kaliski::*;
+pub mod dividers;
+pub use dividers::*;
